@@ -159,7 +159,7 @@ def parse_assumptions(log):
 # primitive types/operations of Coq's native floats and integers (not axioms of ours; printed
 # by Print Assumptions because they have no body)
 PRIMITIVES = {"float", "int", "of_uint63", "normfr_mantissa", "frshiftexp", "ldshiftexp", "next_up", "next_down",
-              "array"}
+              "array", "abs", "sqrt", "opp", "eqb", "ltb", "leb", "compare", "classify", "add", "sub", "mul", "div"}
 
 
 def axiom_ok(a):
